@@ -32,17 +32,23 @@ Definition S_ (name : string) (a : list (string * string)) (kids : list node) : 
   Elem (s2l name) (map (fun kv => (s2l (fst kv), s2l (snd kv))) a) kids.
 Open Scope string_scope.
 
-(** F16: rule-breaking documents the reader accepts — a <unicode/> without hex; an attribute on
-    <outline>; a child element inside <note>; two notes; the identifier of a self-closing contour
-    repeated on an anchor; an identifier on a self-closing contour in format 1. *)
+(** F16: the rule-breaking documents the reader still accepts — a child element inside <note>. *)
 Definition F16_witnesses : list doc :=
+  [ glyph_doc "2" [S_ "note" [] [Text (s2l "x"); S_ "b" [] [Text (s2l "in")]]];
+    glyph_doc "2" [S_ "note" [] [E_ "br" []]] ].
+(** documents of the former F16 sub-classes, repaired in the reader (ea3d494, fd4434a, 764fdf7,
+    c12bec3): a <unicode/> without hex; an attribute on <outline>; two notes; the identifier of a
+    self-closing contour repeated on an anchor; an identifier on a self-closing contour in format 1 *)
+Definition repaired_F16_documents : list doc :=
   [ glyph_doc "2" [E_ "unicode" []];
     glyph_doc "2" [S_ "outline" [("bogus", "1")] []];
-    glyph_doc "2" [S_ "note" [] [Text (s2l "x"); S_ "b" [] [Text (s2l "in")]]];
     glyph_doc "2" [S_ "note" [] []; S_ "note" [] [Text (s2l "second")]];
     glyph_doc "2" [S_ "outline" [] [E_ "contour" [("identifier", "i1")]];
                    E_ "anchor" [("x", "1"); ("y", "2"); ("identifier", "i1")]];
     glyph_doc "1" [S_ "outline" [] [E_ "contour" [("identifier", "i1")]]] ].
+Example C12_repaired_F16_rejected :
+  forallb (fun w => negb (accepts pf0 w) && negb (glif_okb pf0 w)) repaired_F16_documents = true.
+Proof. vm_compute. reflexivity. Qed.
 Theorem C12_F16_witnesses :
   Forall (fun w => (exists g, parse_glif pf0 w = Ok g) /\ ~ glif_ok pf0 w /\ F16 w) F16_witnesses.
 Proof. apply witness_sound. vm_compute. reflexivity. Qed.
@@ -53,11 +59,9 @@ Proof.
 Qed.
 
 (** ---------- completeness of acceptance ---------- *)
-(** Every rule-obeying document outside the three surface classes is accepted.  (F16 appears
-    because a self-closing contour with a legal identifier is rule-obeying and accepted, but
-    sits in the class whose members the proof does not follow.) *)
+(** Every rule-obeying document outside the two surface classes is accepted. *)
 Theorem C12_complete : forall pf d,
-  glif_ok pf d -> ~ F14 d -> ~ F16 d -> ~ F17 d -> exists g, parse_glif pf d = Ok g.
+  glif_ok pf d -> ~ F14 d -> ~ F17 d -> exists g, parse_glif pf d = Ok g.
 Proof. exact parse_complete. Qed.
 
 (** Outside the classes the reader accepts exactly the rule-obeying documents. *)
@@ -104,8 +108,14 @@ Qed.
 (** The identifiers of a returned glyph are pairwise distinct across anchors, guidelines,
     contours, points and components ([glyph_ids] concatenates all five kinds). *)
 Theorem C12_ids_unique_across_kinds : forall pf d g,
-  parse_glif pf d = Ok g -> ~ F16 d -> NoDup (glyph_ids g).
-Proof. intros pf d g H NF. destruct (parse_sound pf d g H NF) as (_ & GR & _). apply GR. Qed.
+  parse_glif pf d = Ok g -> NoDup (glyph_ids g).
+Proof. intros pf d g H. destruct (parse_rules pf d g H) as (GR & _). apply GR. Qed.
+
+(** Every returned glyph satisfies the glyph rules and has no [public.objectLibs] key — for every
+    document, inside or outside the classes. *)
+Theorem C12_returned_glyph_rules : forall pf d g,
+  parse_glif pf d = Ok g -> glyph_rules g /\ lookup objlibs_key (glib g) = None.
+Proof. exact parse_rules. Qed.
 
 (** ---------- format 1 ---------- *)
 (** An accepted format-1 document contains no image, anchor or guideline element, no identifier
